@@ -1442,6 +1442,16 @@ pub fn registry_behaviour(r: &mut Rng, t: &mut Trace, max_pairs: usize, index: u
             t.run(&mut w, json!({"op": "fac_add_native", "caller": "owner", "denom": d, "decimals": dec}));
         }
     }
+    // re-registrations far from the other asset's decimals (the field is a u8: 26, 38 and 255 are 20 or more away from the
+    // base tokens' 6, 18 and 0), in either position, each followed by a lookup; the last value brings the denom back
+    for d in denoms.iter().take(2) {
+        for dec in [26u64, 255, 38, 19, 5] {
+            t.run(&mut w, json!({"op": "fac_add_native", "caller": "owner", "denom": d, "decimals": dec}));
+            t.run(&mut w, json!({"op": "q_native_decimals", "denom": d}));
+            let tk = r.pick(&w.tokens.clone()).clone();
+            t.run(&mut w, json!({"op": "q_fac_pair", "infos": [nat(d), tok(&tk)]}));
+        }
+    }
     // ... and what the factory answers for those pairs must still be what the pairs say about themselves
     for d in denoms.iter().take(3) {
         for tk in w.tokens.clone().iter() {
